@@ -28,12 +28,16 @@ pub struct Alphabet {
 }
 
 pub fn alphabet() -> Alphabet {
-    let frames = vec![
+    let mut frames = vec![
         df11(5, 0x4840d6, 0),
         df11(5, 0x4840d7, 0),
         df11(5, 0x3c6444, 0),
         vec![0x08, 0x11, 0x22, 0x33, 0x44, 0x55, 0x66], // DF1: no such format, cannot be decoded
     ];
+    // further decodable frames (indices 4..16) for histories with many groups open at once
+    for i in 0..12u32 {
+        frames.push(df11(5, 0x700000 + 0x1111 * i, 0));
+    }
     let decodable = frames.iter().map(|f| Message::from_bytes((f, 0)).is_ok()).collect();
     Alphabet { frames, decodable }
 }
@@ -340,7 +344,7 @@ fn symbols(frames: &[u8], rxs: &[u8], stamps: &[u64]) -> Vec<Arr> {
 
 pub fn run(ctx: &Ctx, rep: &Report) {
     let al = alphabet();
-    if al.decodable != vec![true, true, true, false] {
+    if al.decodable[..4] != [true, true, true, false] || al.decodable[4..].iter().any(|d| !d) {
         rep.violation("harness:alphabet", format!("frame alphabet decodability is {:?}, expected [true,true,true,false]", al.decodable), json!({}));
         return;
     }
@@ -452,6 +456,39 @@ pub fn run(ctx: &Ctx, rep: &Report) {
         nontriv += grp.load(Ordering::Relaxed);
         rep.part("periodic long histories (patterns repeated up to 257 times)", c, json!({"patterns": pats.len(), "longest": 257 * if ctx.thorough() { 3 } else { 2 }}));
         bound.push(format!("periodic: {} patterns x 3 repeat counts x 3 periods x 2 windows x 2 variants", pats.len()));
+    }
+    // many groups open at once: k distinct frames (k = 1..=12) arrive 10 ms apart, optionally one of them is
+    // received again, then one or two late arrivals close everything (bounded work per arrival, caps on open groups)
+    {
+        let mut fam: Vec<Vec<Arr>> = Vec::new();
+        for k in 1..=12usize {
+            for dup in 0..=k {
+                for closers in 1..=2 {
+                    let mut h: Vec<Arr> = (0..k).map(|i| Arr { frame: 4 + i as u8, rx: 0, ms: 10 * i as u64 }).collect();
+                    if dup > 0 {
+                        h.push(Arr { frame: 4 + (dup - 1) as u8, rx: 1, ms: 10 * k as u64 });
+                    }
+                    for c in 0..closers {
+                        h.push(Arr { frame: 0, rx: 0, ms: 2000 + 1000 * c as u64 });
+                    }
+                    fam.push(h);
+                }
+            }
+        }
+        let mut oc = [0u64; 8];
+        let mut c = 0u64;
+        for h in &fam {
+            for w in [250u32, 450] {
+                for var in [plain, multi] {
+                    check_one(&al, h, w, var, rep, &agree, &disagree, &mut oc);
+                    c += 1;
+                }
+            }
+        }
+        total += c;
+        nontriv += c;
+        rep.part("fan-out: up to 12 groups open at once", c, json!({"histories": fam.len()}));
+        bound.push(format!("fan-out: {} histories with 1..=12 distinct frames open at once", fam.len()));
     }
     rep.sample(hist_json(&[Arr { frame: 0, rx: 0, ms: 0 }, Arr { frame: 0, rx: 1, ms: 250 }, Arr { frame: 1, rx: 0, ms: 450 }, Arr { frame: 0, rx: 0, ms: 500 }], 450, multi));
     rep.sample(json!({"emitted_for_sample": run_real(&al, &[Arr { frame: 0, rx: 0, ms: 0 }, Arr { frame: 0, rx: 1, ms: 250 }, Arr { frame: 1, rx: 0, ms: 450 }, Arr { frame: 0, rx: 0, ms: 500 }], 450, multi).map(|v| v.iter().map(|r| json!({"after_arrival": r.step, "timestamp_ms": r.ts_ms, "receptions": r.ids})).collect::<Vec<_>>()).unwrap_or_default()}));
